@@ -128,6 +128,9 @@ package analysis
 //@   props C06 C07 C11 C20 C05 C14
 //@   ensures[condition-and-body-are-walked] hits("cgExp#0") == 1 && hits("cgBlock#0") == 1
 //@   at call cgExp#0 before assert[condition-is-walked] arg1 == node.Exp
+// sibling scopes are registered in source order (FindMinScope takes the first child that contains the cursor): the
+// scopes a condition creates - a function literal in it - come before the scope of the loop, whose range covers them
+//@   at call cgExp#0 before assert[condition-is-walked-before-the-loop-scope-is-registered] hits("AppendSubScope#0") == 0 && hits("CreateScopeInfo#0") == 0
 //@   at call cgBlock#0 before assert[body-is-walked] arg1 == node.Block
 //@ end
 //@ func (*Analysis).cgDoStat
